@@ -70,7 +70,8 @@ CHECKS = {
              "contracts (YAML = identity on YAML-native data, error otherwise); the structure lattice (SF and XS observables, "
              "None/0/1/2 points, 1..3 order keys, nf None/int) x format chains (yaml, tar and all two-step cycles) is enumerated "
              "and every field of the loaded object must be the same token as in the original; the dumped object must be "
-             "unchanged. Failures are replayed with the real libraries on disk.",
+             "unchanged. Failures are replayed with the real libraries on disk."
+             " Outputs holding both spellings of one observable (F2 and F2_total) are included, and loading ANOTHER output afterwards must leave an already loaded object unchanged.",
         note="proxy tokens (z3 terms compared structurally), the I/O contracts listed in the evidence (byte-level fidelity of PyYAML "
              "and NumPy is assumed), Python semantics; cards containing non-YAML types are outside.",
         technique="bounded symbolic execution of the real (de)serialisation code on symbolic tokens with I/O contracts, exhaustive structure lattice",
@@ -82,7 +83,8 @@ CHECKS = {
              "the documented contraction, that the PDF is evaluated only at muF^2 = xiF^2 Q2 and never for flavours it lacks, and "
              "that composite PDFs a f + b g go through the same (linear) formula. Output.apply_pdf_theory runs with eko replaced "
              "by recorders for every scheme: alpha_s(muR^2) with nf_to = NfFF (fixed-flavour) or the flavours active at muR "
-             "(ZM-VFNS), built from the card's couplings/order/method/masses/(m k)^2 scales, times 4 pi.",
+             "(ZM-VFNS), built from the card's couplings/order/method/masses/(m k)^2 scales, times 4 pi."
+             " apply_pdf_theory is also called with a card that differs from the one stored in the output: the card passed in is the one that counts.",
         note=TRUST + "; eko's running coupling itself is outside; the Output-level wiring part is a concrete recorder run per scheme.",
         technique="symbolic execution of apply_pdf with uninterpreted PDF/couplings (z3 QF_UFNRA equality) + recorder run of the coupling wiring",
         design="§4 C17",
@@ -94,7 +96,8 @@ CHECKS = {
              "x, Q2 and TMC-ness. (2) The real Runner.get_result on up to four elements with symbolic Q2: every ordering and tie "
              "is a solver-feasible path of sorted(); output[name][i] is the result of elements[i], unplanned observables do not "
              "leak. (3) compute_raw / n3lo.interpolator memos are transparent, fact_matrices does not modify the operator memo (symbolic 2x2 "
-             "operators) and ren_coeffs(nf) is independent of the nf values asked before. (4) ESF.get_result returns a private deep copy.",
+             "operators) and ren_coeffs(nf) is independent of the nf values asked before. (4) ESF.get_result returns a private deep copy."
+             " The scale-variation tensors a compute_local emits for nf from a manager that has served other nf before equal those from a fresh manager.",
         note=TRUST + "; bounded history (<= 2 earlier requests) instead of an arbitrary pre-state: the cache key has no other state, "
              "one earlier entry suffices for a collision; bit-for-bit float equality is outside (reals).",
         technique="symbolic execution of the real cache/ordering code with symbolic dict keys (z3 decisions) + path exploration",
@@ -120,7 +123,8 @@ CHECKS = {
              "content, is idempotent, and that unknown targets raise ValueError without side effects. The real Runner.__init__ + "
              "get_result run on cards with symbolic masses/thresholds/kinematics over all feasible paths: a deep identity snapshot "
              "of the cards is unchanged after construction, repeated construction and get_result; the output echoes the given "
-             "cards, grid, pids and projectilePID.",
+             "cards, grid, pids and projectilePID."
+             " Cards that omit one optional key (one cell per top-level key whose omission yadism accepts) and cards whose points are listed in non-monotonic Q2 order are included.",
         note=TRUST + "; CrossHair 0.0.110; floats concrete in the CrossHair harnesses; numerics stubbed to zeros in the runner part; "
              "mutation by eko/rich internals outside.",
         technique="CrossHair symbolic execution of compatibility.update + symbolic execution of the real Runner with identity snapshots",
@@ -134,7 +138,8 @@ CHECKS = {
              "central coefficients and parton weights. The emitted tensors are differentiated with a hand-written "
              "flavour-basis DGLAP + beta-function oracle and z3 proves every monomial of dF/dln muF^2 (a_s^k, k<=min(pto,2)) "
              "and dF/dln muR^2 (k<=pto) identically zero, nf 3..6, pto 1..3, four switch combinations; switched-off logs "
-             "vanish, other tensors unchanged; intrinsic channel emits no muF log. No test checks an RGE at all.",
+             "vanish, other tensors unchanged; intrinsic channel emits no muF log. No test checks an RGE at all."
+             " The manager is also taken as the REAL Runner builds it from cards with PTODIS != PTO (logs must reach a_s^PTODIS).",
         note=TRUST + "; that the analytic kernels are the convolutions their labels name and that NLO splitting functions equal "
              "the literature is outside; eko projector entries are read as the nearest simple rational (within 1e-12).",
         technique="symbolic execution of the real scale-variation code on symbolic Mellin moments + z3 polynomial identity (RGE residuals)",
@@ -160,7 +165,8 @@ CHECKS = {
              "a non-literal-zero integrand value only for Q2(1-z)/z > 4m2 (boundary included); CC convolution point == "
              "x(1+m2/Q2); conv.convolution returns exactly (0,0) without touching the integrand for a point >= 1-eps; and, through the real "
              "Combiner with three symbolic masses, every heavy/intrinsic/asymptotic kernel of a heavy component carries the mass of its own "
-             "flavour (the threshold is the one of the right quark).",
+             "flavour (the threshold is the one of the right quark)."
+             " The guard is also checked where the result is assembled: through the real ESF.compute_local (quadrature recorded) every RSL that is actually convolved for a heavy NC channel implies W^2 > 4 m^2 of that kernel's own quark.",
         note=TRUST + "; external libraries are uninterpreted, so only yadism's own guards can produce the zeros.",
         technique="symbolic execution of the real heavy-quark classes (z3 proxies, path exploration) + z3 NRA implication queries",
         design="§4 C09",
@@ -172,7 +178,8 @@ CHECKS = {
              "basis functions lie below xi, xi below the grid) are explored and on each z3 proves values and propagated errors "
              "equal to the published combination (Schienbein et al., Kretzer-Reno, Bluemlein-Tkabladze): prefactors, which "
              "observable is integrated, which integral (real kernel run at symbolic z, matched by solver-proved equality), the "
-             "Nachtmann point; M=0 returns the uncorrected function exactly; ValueError exactly when xi(x) is below the grid.",
+             "Nachtmann point; M=0 returns the uncorrected function exactly; ValueError exactly when xi(x) is below the grid."
+             " A second get_result() on the same (cached) TMC object must return the same tensors.",
         note=TRUST + "; approximate mode oracle: Schienbein closed forms for F2/F3, integrand frozen at the bottom end for FL/g1 "
              "(docs); accuracy of the j-sum as an interpolation of the integral is outside.",
         technique="symbolic execution of the real TMC classes with uninterpreted structure functions + z3 QF_UFNRA equality",
@@ -196,7 +203,8 @@ CHECKS = {
              "(FFNS/FFN0), total = light (ZM-VFNS), full = massless + massive (FONLL), sum over the six quarks of the "
              "coupling-restricted forms = unrestricted = 'all', for all parameter values over the lattice kind x process x "
              "projectile x scheme x nf x order. Tests never compare two runs; here any branch edit that breaks a partition "
-             "is a sat model replayed on floats.",
+             "is a sat model replayed on floats."
+             " The FONLL identity full = massless + massive is proved for every flavour (total, light, charm, bottom, top).",
         note=TRUST + "; identities are on kernel lists, numerical equality of separately convolved runs follows from linearity "
              "(C01); the heavy sum runs over flavours massive in the scheme, massless ones are checked for containment in light.",
         technique="symbolic execution of the real Combiner (z3 proxies) + z3 equality of formal linear forms",
@@ -206,7 +214,8 @@ CHECKS = {
         text="Combiner.apply_isospin runs on kernels with symbolic weights for all 16 up/down key patterns and z3 proves "
              "sum_p w'_p f_p = sum_p w_p f'_p for ALL real Z, A != 0, weights and formal PDFs; the real Combiner for a symbolic "
              "target is proved equal to the oracle-rotated proton run on the configuration lattice; the named-target table is "
-             "compared with the documented (Z,A), unknown names must raise ValueError.",
+             "compared with the documented (Z,A), unknown names must raise ValueError."
+             " Explicit {Z, A} targets (non-integer values) must pass through update_target unchanged.",
         note=TRUST + "; named-target table is a finite concrete comparison, not symbolic.",
         technique="symbolic execution of apply_isospin/Combiner (z3 proxies) + z3 NRA equality with the rotation oracle",
         design="§4 C12",
@@ -227,7 +236,8 @@ CHECKS = {
              "Q2>0, sin2theta in (0,1), MZ, MW, polarisation in [-1,1], propagator correction, nine CKM^2>=0 that every "
              "weight and the LO operator weight per parton (sum over kernels of weight x LO delta x chi/x) equals an "
              "independent PDG/CKM oracle; the discrete lattice projectile x process x nf x kind x CKM mask is enumerated. "
-             "Unit tests pin a few numbers; here a sign/charge/propagator/CKM slip anywhere in parameter space is a sat model.",
+             "Unit tests pin a few numbers; here a sign/charge/propagator/CKM slip anywhere in parameter space is a sat model."
+             " The LO operator in the massive-scheme limit FFN0 (through the real Combiner; light quarks plus the tagged heavy quark as incoming partons) is compared with the same parton model.",
         note=TRUST + "; oracle yv/refs/ew.py written from PDG (tree-level eta_gammaZ) and docs/theory/fns.rst; for neutrino NC "
              "beams both helicity sign conventions are accepted; heavy-CC FL LO prefactor is outside.",
         technique="symbolic execution of the real weight code (z3 proxies) + z3 NRA equality with an independent PDG oracle",
